@@ -483,6 +483,9 @@ def check_trace(err, root, target, where):
         for c in failed:
             full = fmtval(c.spec, 0)
             at = [i for i, p in spec_lines if shown_matches(p[3], full) and p[1] == '\\']
+            # (truncated lines of different branches can read the same: take the first candidate after the previous branch)
+            later = [i for i in at if not order or i > order[-1]]
+            at = later or at
             if at:
                 order.append(at[0])
             if c in path:
